@@ -67,3 +67,13 @@ $E C07 rename-routeparams-locals codescan/route_params.go 's/\benumValues\b/list
 $E C10 rename-readable-locals generator/support.go 's/for _, b := range string(spec) {/for _, r := range string(spec) {/' "s/if b == '\`' {/if r == '\`' {/" 's/buf.WriteRune(b)/buf.WriteRune(r)/'
 $E C12 rename-items-locals cmd/swagger/commands/diff/spec_analyser.go 's/\bitems1\b/left/g' 's/\bitems2\b/right/g'
 $E C15 rename-reportchanges-locals cmd/swagger/commands/diff/spec_difference.go 's/\btoReportList\b/lines/g' 's/\beachDiff\b/line/g'
+# round 10
+for id in C13 C14; do $E $id rename-compareschema-locals cmd/swagger/commands/diff/spec_analyser.go 's/\brefDiffs\b/changedRefs/g' 's/\btypeDiffs\b/propDiffs/g' 's/\bkey := schemaLocationKey\b/visitedKey := schemaLocationKey/' 's/sd.schemasCompared\[key\]/sd.schemasCompared[visitedKey]/g'; done
+$E C13 rename-numeric-locals cmd/swagger/commands/diff/checks.go 's/\bmaxDiffs\b/upper/g' 's/\bminDiffs\b/lower/g'
+$E C08 rename-routes-locals generator/support.go 's/\broutes\b/slots/g' 's/\broute := op.Method\b/slot := op.Method/' 's/routes\[route\]/slots[slot]/g' 's/\[route\]/[slot]/g' 's/, route)/, slot)/g'
+$E C08 rename-collision-locals generator/shared.go 's/\bprevious\b/earlier/g'
+for id in C16 C17; do $E $id rename-names-locals codescan/application.go 's/\bmatches\b/found/g' 's/\bcmt\b/comment/g'; done
+$E C17 rename-operation-locals codescan/operations.go 's/\bpthObj\b/item/g' 's/\bop\b/operation/g'
+$E C17 rename-newspecbuilder-locals codescan/spec.go 's/func newSpecBuilder(input \*spec.Swagger/func newSpecBuilder(in *spec.Swagger/' '/^func newSpecBuilder/,/^}/s/\binput\b/in/g' '/^func newSpecBuilder/,/^}/s/in:  *in,/input:       in,/'
+$E C18 rename-xorder-locals generator/spec.go 's/\bxOrderIndex\b/at/g' 's/\bpSlice\b/schemaKeys/g'
+$E C05 dash-tag-switch generator/structs.go 's/^\tif result.String() == "-" {$/\tif tag := result.String(); tag == "-" {/'
